@@ -642,3 +642,23 @@ Proof.
   intros Hp He Hs. unfold filter_event, xpredicate. rewrite Hp, He, (cmp_sound _ _ _ _ Hs).
   destruct b; reflexivity.
 Qed.
+
+(** * 6. from the text of an expression to its truth *)
+From YV Require Import Tree.XPathLexProofs.
+
+Theorem xpredicate_render kids c p lf o w l :
+  Forall name_ok p -> name_ok lf -> lit_ok w l -> (length p < stack_size)%nat ->
+  xpredicate kids c (render p lf o w) = eval_cmp kids c (mkCmp p lf o l).
+Proof.
+  intros Hp Hlf Hw Hlen. unfold xpredicate.
+  rewrite (xparse_render p lf o w l Hp Hlf Hw Hlen), as_cmp_path. reflexivity.
+Qed.
+
+Theorem text_truth kids c p lf o w l r :
+  Forall name_ok p -> name_ok lf -> lit_ok w l -> (length p < stack_size)%nat ->
+  spec_cmp kids c (mkCmp p lf o l) = Some r ->
+  xpredicate kids c (render p lf o w) = XOk r.
+Proof.
+  intros Hp Hlf Hw Hlen Hs. rewrite (xpredicate_render kids c p lf o w l Hp Hlf Hw Hlen).
+  now apply cmp_sound.
+Qed.
